@@ -18,8 +18,10 @@ package main
 
 import (
 	"context"
+	"encoding/json"
 	"fmt"
 	"math/rand"
+	"os"
 	"sort"
 	"sync"
 	"sync/atomic"
@@ -510,69 +512,99 @@ func (x *env) directedFaultPhase() {
 		firsts = append(firsts, op{"upd(+1h)", updWith(tsow.ClockFastUpdate)}, op{"reinit(+1h)", reinit(tsow.ClockFastSync)})
 	}
 	seconds := []op{{"upd", updWith(tsow.ClockNormal)}, {"set+5ms", setBy(5 * time.Millisecond)}, {"set+1s", setBy(time.Second)}, {"reinit", reinit(tsow.ClockNormal)},
-		{"upd,upd", func(s *seqRun) { updWith(tsow.ClockNormal)(s); updWith(tsow.ClockNormal)(s) }}}
+		{"upd,upd", func(s *seqRun) { updWith(tsow.ClockNormal)(s); updWith(tsow.ClockNormal)(s) }},
+		// the clock reaches the window the member believes it has saved: this update has to save
+		{"wait-window,upd", func(s *seqRun) {
+			if s.saveIv <= 50*time.Millisecond {
+				time.Sleep(s.saveIv + 10*time.Millisecond)
+			}
+			updWith(tsow.ClockNormal)(s)
+		}}}
 	for _, saveIv := range []time.Duration{50 * time.Millisecond, 3 * time.Second} {
 		for _, f := range firsts {
 			for _, mode := range []etcdx.FaultMode{etcdx.FailBefore, etcdx.LostAck} {
 				for _, g := range seconds {
-					w, err := tsow.NewWorld(x.e, x.root("d"), 1, saveIv, 50*time.Millisecond)
-					if err != nil {
-						r.Inconclusive("world: %v", err)
-						return
-					}
-					s := &seqRun{x: x, w: w, saveIv: saveIv, clock: tsow.ClockNormal}
-					s.hookWrites()
-					s.serving = w.Members[0]
-					if s.serving.Campaign(true) != nil || s.serving.Alloc.Initialize(0) != nil {
-						w.Close()
-						r.Inconclusive("directed setup failed")
-						return
-					}
-					s.record("init", "normal", nil)
-					s.grant(1)
-					fired := false
-					cl := s.serving.Cl
-					cl.Decide = func(rpc *etcdx.RPC) etcdx.FaultMode {
-						if !fired && rpc.Method == "Txn" && len(rpc.Keys) > 0 && rpc.Keys[0] == w.TimestampKey() {
-							fired = true
-							r.Count("window_write_faults_injected", 1)
-							return mode
+					// second fault, of another kind: the first read of the window key during the follow-up
+					// operation fails (the re-read that decides what an uncertain save has left behind)
+					for _, readFault := range []bool{false, true} {
+						if readFault && mode != etcdx.LostAck {
+							continue
 						}
-						return etcdx.NoFault
-					}
-					f.run(s)
-					cl.Decide = nil
-					s.ensureInit()
-					if !s.bad {
+						w, err := tsow.NewWorld(x.e, x.root("d"), 1, saveIv, 50*time.Millisecond)
+						if err != nil {
+							r.Inconclusive("world: %v", err)
+							return
+						}
+						s := &seqRun{x: x, w: w, saveIv: saveIv, clock: tsow.ClockNormal}
+						s.hookWrites()
+						s.serving = w.Members[0]
+						if s.serving.Campaign(true) != nil || s.serving.Alloc.Initialize(0) != nil {
+							w.Close()
+							r.Inconclusive("directed setup failed")
+							return
+						}
+						s.record("init", "normal", nil)
 						s.grant(1)
-						s.takeover("after the faulted op")
-						g.run(s)
+						fired := false
+						cl := s.serving.Cl
+						cl.Decide = func(rpc *etcdx.RPC) etcdx.FaultMode {
+							if !fired && rpc.Method == "Txn" && len(rpc.Keys) > 0 && rpc.Keys[0] == w.TimestampKey() {
+								fired = true
+								r.Count("window_write_faults_injected", 1)
+								return mode
+							}
+							return etcdx.NoFault
+						}
+						f.run(s)
+						cl.Decide = nil
 						s.ensureInit()
-					}
-					if !s.bad {
-						s.grant(1)
-						s.takeover("after the follow-up op")
-					}
-					s.serving.Resign()
-					hs, err := x.e.History(w.TimestampKey(), w.StartRev)
-					if err == nil {
-						var prev int64
-						for _, hv := range hs {
-							if hv.Delete {
-								continue
+						if !s.bad {
+							s.grant(1)
+							s.takeover("after the faulted op")
+							if readFault {
+								readFired := false
+								cl.Decide = func(rpc *etcdx.RPC) etcdx.FaultMode {
+									if !readFired && rpc.Method == "Range" && len(rpc.Reads) > 0 && rpc.Reads[0] == w.TimestampKey() {
+										readFired = true
+										r.Count("window_read_faults_injected", 1)
+										return etcdx.FailBeforeFinal
+									}
+									return etcdx.NoFault
+								}
 							}
-							v := tsow.DecodeBound([]byte(hv.Value))
-							if v < prev {
-								r.Violation("stored-bound-decreases:after-failed-save", fmt.Sprintf("stored time window went from %d to %d ns (faulted %s [%v], then %s)", prev, v, f.name, mode, g.name), s.witness(map[string]interface{}{"history": hs}))
-								break
-							}
-							prev = v
+							g.run(s)
+							cl.Decide = nil
+							s.ensureInit()
 						}
+						if !s.bad {
+							s.grant(1)
+							s.takeover("after the follow-up op")
+						}
+						s.serving.Resign()
+						hs, err := x.e.History(w.TimestampKey(), w.StartRev)
+						if err == nil {
+							var prev int64
+							for _, hv := range hs {
+								if hv.Delete {
+									continue
+								}
+								v := tsow.DecodeBound([]byte(hv.Value))
+								if v < prev {
+									r.Violation("stored-bound-decreases:after-failed-save", fmt.Sprintf("stored time window went from %d to %d ns (faulted %s [%v], then %s)", prev, v, f.name, mode, g.name), s.witness(map[string]interface{}{"history": hs}))
+									break
+								}
+								prev = v
+							}
+						}
+						if os.Getenv("VERIF_C02_DEBUG") != "" && readFault {
+							b, _ := json.Marshal(map[string]interface{}{"first": f.name, "second": g.name, "saveIv": saveIv.String(), "steps": s.steps, "history": hs, "rpcs": s.serving.Cl.Log()})
+							fmt.Println("DEBUG-DIRECTED", string(b))
+						}
+						w.Close()
+						r.Eval(1)
+						r.Count("directed_fault_histories", 1)
+						r.Distinct(fmt.Sprintf("directed|%s|%s|%d|%s|%v|%v", saveIv, f.name, mode, g.name, fired, readFault))
 					}
-					w.Close()
-					r.Eval(1)
-					r.Count("directed_fault_histories", 1)
-					r.Distinct(fmt.Sprintf("directed|%s|%s|%d|%s|%v", saveIv, f.name, mode, g.name, fired))
 				}
 			}
 		}
